@@ -46,7 +46,9 @@ def gen_prog(rng, n=None, mem=True, patch=False, loop=None):
         elif c < 0.55:
             prog.append({"k": "PU", "i": rng.randrange(1, 120)})
         elif c < 0.62 and s + 2 <= n:
-            prog.append({"k": rng.choice(["JMP", "JNZ"]), "t": rng.randrange(s + 1, n + 1)})
+            # (never onto the loop's own branch: that would skip the DEC guarding it)
+            tg = [t for t in range(s + 1, n + 1) if loop_at is None or use_loop_ins or t != loop_at + 1]
+            prog.append({"k": rng.choice(["JMP", "JNZ"]), "t": rng.choice(tg)} if tg else {"k": "RT", "i": rng.randrange(1, 120)})
         elif c < 0.8 and mem:
             k = rng.random()
             if k < 0.4:
